@@ -209,8 +209,15 @@ StringDictionaryHASHHF::StringDictionaryHASHHF(IteratorDictString *it, uint len,
                 codeSubstr = (codeSubstr << (8 - offset));
                 ptrSubstr += (8 - offset);
                 offset = 0;
-                ptr = sorting[current + 1].original;
-                read = 0;
+
+                if ((current + 1) < elements) {
+                  ptr = sorting[current + 1].original;
+                  read = 0;
+                } else {
+                  // There are no more strings: zeroes follow the last one
+                  codeSubstr = (codeSubstr << (TABLEBITSO - ptrSubstr));
+                  ptrSubstr = TABLEBITSO;
+                }
               } else {
                 offset = offset % 8;
 
